@@ -27,6 +27,20 @@ RECURSIVE RunInScope(_, _, _)
 RunInScope(prog, p, d) == IF p > Len(prog) \/ prog[p].depth < d THEN 0 ELSE 1 + RunInScope(prog, p + 1, d)
 ScopeRun(vm) == IF Remaining(vm) = 0 THEN 0 ELSE RunInScope(vm.prog, vm.pos + 1, vm.prog[vm.pos + 1].depth)
 
+\* the furthest leave_scope may run and still have left ONE scope: the rest of the current scope (depth d), then
+\* instructions of the enclosing scope up to and including the first one that does not enter a scope of depth d
+\* again (the code notices that the scope is gone after the next instruction it executes)
+RECURSIVE RunLeave(_, _, _)
+RunLeave(prog, p, d) ==
+    IF p > Len(prog) THEN 0
+    ELSE IF prog[p].depth >= d THEN 1 + RunLeave(prog, p + 1, d)
+    ELSE IF prog[p].depth = d - 1 /\ p + 1 <= Len(prog) /\ prog[p + 1].depth >= d THEN 1 + RunLeave(prog, p + 1, d)
+    ELSE 1
+\* the scope the action is issued in: that of the next instruction - or, halted behind the last instruction of a
+\* scope that has not been dissolved yet, that finished scope (both readings are accepted)
+ScopesAt(vm) == LET nxt == vm.prog[vm.pos + 1].depth IN
+                IF vm.pos = 0 THEN {nxt} ELSE {nxt, IF vm.prog[vm.pos].depth > nxt THEN vm.prog[vm.pos].depth ELSE nxt}
+
 \* executing n instructions from pos: stops early at the erroring instruction
 Advance(vm, n) ==
     LET hitsErr == vm.err > vm.pos /\ vm.err <= vm.pos + n
@@ -65,6 +79,10 @@ Do(vm, a) ==
 StepIsOne(a, vm, o) == (a = "assembly_step" /\ Remaining(vm) > 0) => o.executed = 1
 LineStepStops(a, vm, p, o) == a = "line_step" => o.executed = p.executed
 LeaveScopeStops(a, vm, p, o) == a = "leave_scope" => o.executed = p.executed
+\* leave scope leaves the scope it was issued in, and only that one (where exactly it halts in the enclosing scope is not fixed)
+LeaveScopeLeavesOne(a, vm, o) ==
+    (a = "leave_scope" /\ Remaining(vm) > 0 /\ vm.err <= vm.pos)
+        => \E d \in ScopesAt(vm) : o.executed >= RunInScope(vm.prog, vm.pos + 1, d) /\ o.executed <= RunLeave(vm.prog, vm.pos + 1, d)
 StartCompletes(a, vm, p, o) == a = "start" => (o.executed = p.executed /\ o.res = p.res)
 StateFollows(a, p, o) == o.state = p.vm.state
 ControlResult(a, p, o) == a \in {"stop", "abort"} => o.res = p.res
